@@ -240,8 +240,22 @@ func (rw *rewriter) file(f *ast.File) {
 		if !ok {
 			return true
 		}
-		if p, t, _ := rw.methodOf(c); p == "sync" && t == "Cond" {
-			rw.refuse(c, "sync.Cond is not supported by the simulator")
+		// sync.Cond is replaced by a simulator-side condition queue keyed by the
+		// Cond's address (Wait re-locks its mutex, which must not block natively)
+		if p, t, m := rw.methodOf(c); p == "sync" && t == "Cond" && (m == "Wait" || m == "Signal" || m == "Broadcast") {
+			x := c.Fun.(*ast.SelectorExpr).X
+			if tv, ok := rw.info.Types[x]; ok {
+				if _, isPtr := tv.Type.(*types.Pointer); !isPtr {
+					x = &ast.UnaryExpr{Op: token.AND, X: x}
+				}
+			}
+			c.Fun = rt("Cond" + m)
+			if m == "Wait" {
+				c.Args = []ast.Expr{rw.site(c, "condwait"), x}
+			} else {
+				c.Args = []ast.Expr{x}
+				rw.used = true
+			}
 		}
 		if p, t, m := rw.methodOf(c); p == "golang.org/x/sync/errgroup" && t == "Group" && (m == "Go" || m == "TryGo") {
 			rw.refuse(c, "errgroup goroutines are not under the simulator's control")
